@@ -348,6 +348,9 @@ func judge(sc *Scenario, res *result) (misses []miss, classes []string) {
 			classes = append(classes, "upstream-answers-garbage")
 		}
 	}
+	if sc.EmptyReply {
+		classes = append(classes, "upstream-replies-without-body")
+	}
 	if sc.Client.Disconnect {
 		classes = append(classes, "client-disconnect")
 		if sc.Client.Class == "near-try" || sc.Client.Class == "near-global" || (sc.Client.Class == "near-answer" || sc.Client.Class == "at-answer") && len(res.Arrivals) > 0 && terminalCapable[sc.Steps[0].Kind] {
